@@ -2,6 +2,18 @@
 //@@INCLUDE _shared/ispec.rs
 //@@INCLUDE _shared/num_bigint.rs
 //@@INCLUDE _shared/diagn_opaque.rs
+pub mod util {
+    use vstd::prelude::*;
+    use vstd::std_specs::convert::*;
+    use vstd::std_specs::ops::*;
+    use crate::*;
+    use crate::ispec::*;
+    verus! {
+    broadcast use {crate::num_bigint::axiom_into_refl_obeys, crate::num_bigint::axiom_into_refl};
+    //@@INCLUDE _shared/util_bigint_spec_min.rs
+    //@@ITEMS util
+    }
+}
 pub mod syntax {
     use vstd::prelude::*;
     use vstd::std_specs::convert::*;
@@ -62,6 +74,10 @@ pub mod syntax {
             let v = lit_value(s, start, n - 1, radix);
             assert(v * radix >= v) by (nonlinear_arith) requires v >= 0, radix >= 2;
         }
+    }
+    /// property text: for power-of-two bases the size is digits x bits-per-digit, none for decimal
+    pub open spec fn lit_size(radix: int, digits: int) -> Option<usize> {
+        if radix == 2 { Some(digits as usize) } else if radix == 8 { Some((3 * digits) as usize) } else if radix == 16 { Some((4 * digits) as usize) } else { None }
     }
     /// radix prefix rule of the property text
     pub open spec fn radix_of(s: Seq<char>) -> (int, int) {
